@@ -217,6 +217,23 @@ fn exec(op: &Op) -> String {
                     }
                 }
             }
+            // a path that does not exist is an error; a plain file opens as a database that
+            // lists nothing (the two other arms of `PkgDB::open`)
+            let _ = std::fs::remove_file("dbfile");
+            match PkgDB::open(Path::new("db-does-not-exist")) {
+                Err(e) if e.kind() == std::io::ErrorKind::NotFound => {}
+                _ => return "OPEN-OF-MISSING-PATH-NOT-NOTFOUND".into(),
+            }
+            std::fs::write("dbfile", b"x").unwrap();
+            match PkgDB::open(Path::new("dbfile")) {
+                Ok(mut f) => {
+                    if f.next().is_some() || f.next().is_some() {
+                        return "OPEN-OF-A-FILE-LISTS-SOMETHING".into();
+                    }
+                }
+                Err(_) => return "OPEN-OF-A-FILE-FAILED".into(),
+            }
+            let _ = std::fs::remove_file("dbfile");
             let db = match PkgDB::open(Path::new("db")) {
                 Ok(d) => d,
                 Err(_) => return "open-err".into(),
